@@ -484,31 +484,47 @@ def free_port():
 
 class BB:
     def __init__(self):
-        self.port = free_port()
         env = dict(os.environ)
         env["PYTHONPATH"] = os.environ.get("VF_REPO", "/repo") + "/src"
-        self.errpath = os.path.join(os.environ.get("VF_SCRATCH", "/verif/.scratch"), f"bb-{os.getpid()}-{self.port}.err")
-        os.makedirs(os.path.dirname(self.errpath), exist_ok=True)
-        self.err = open(self.errpath, "wb")
-        self.proc = subprocess.Popen(["/venv/bin/python", "-m", "pyrtma.manager", "-a", "127.0.0.1", "-p", str(self.port)],
-                                     stdin=subprocess.DEVNULL, stdout=self.err, stderr=subprocess.STDOUT, env=env)
         self.drainer = W.Drainer()
-        end = time.time() + 15
-        while time.time() < end:
-            try:
-                s = socket.create_connection(("127.0.0.1", self.port), timeout=0.5)
-                s.close()
+        # the free port is found by binding and closing: another process of this run may take it as a client port
+        # before the manager binds it (the manager then exits at once), so starting is retried with another port
+        for attempt in range(5):
+            self.port = free_port()
+            self.errpath = os.path.join(os.environ.get("VF_SCRATCH", "/verif/.scratch"), f"bb-{os.getpid()}-{self.port}.err")
+            os.makedirs(os.path.dirname(self.errpath), exist_ok=True)
+            self.err = open(self.errpath, "wb")
+            self.proc = subprocess.Popen(["/venv/bin/python", "-m", "pyrtma.manager", "-a", "127.0.0.1", "-p", str(self.port)],
+                                         stdin=subprocess.DEVNULL, stdout=self.err, stderr=subprocess.STDOUT, env=env)
+            up = False
+            end = time.time() + 30
+            while time.time() < end and self.proc.poll() is None:
+                try:
+                    s = socket.create_connection(("127.0.0.1", self.port), timeout=0.5)
+                    s.close()
+                    up = True
+                    break
+                except OSError:
+                    time.sleep(0.1)
+            if up:
                 break
-            except OSError:
-                time.sleep(0.1)
+            try:
+                self.proc.kill()
+                self.proc.wait(5)
+            except Exception:
+                pass
+            self.err.close()
 
     def client(self, label):
         return W.WireClient(self.drainer, ("127.0.0.1", self.port), label)
 
     def connect(self, label, mod_id, logger=0, timeout=8.0):
-        wc = self.client(label)
-        wc.send_frame(W.MT_CONNECT_V2, W.p_connect_v2(logger, 0, 0, mod_id, 1, b""), src_mod=mod_id)
-        wc.send_frame(W.MT_CONNECT, W.p_connect(logger, 0), src_mod=mod_id)
+        try:
+            wc = self.client(label)
+            wc.send_frame(W.MT_CONNECT_V2, W.p_connect_v2(logger, 0, 0, mod_id, 1, b""), src_mod=mod_id)
+            wc.send_frame(W.MT_CONNECT, W.p_connect(logger, 0), src_mod=mod_id)
+        except OSError:
+            return None     # refused / reset: the callers look at the manager process to tell why
         return wc if self.wait(wc, lambda fs: any(f.msg_type == W.MT_ACK for f in fs), timeout) else None
 
     def wait(self, wc, pred, timeout=8.0):
@@ -680,7 +696,14 @@ def run_blackbox(case):
             V.append({"mech": "manager_died:" + crash_mech(tb if "Traceback" in txt else ""), "detail": f"black-box manager process exited (rc={bb.proc.poll()}) after fault: {after}\n{tb[-900:]}"})
 
         for i, f in enumerate(case["faults"]):
-            o = bb.client("o")
+            try:
+                o = bb.client("o")
+            except OSError:
+                if not bb.alive():
+                    died(last)
+                    return res
+                time.sleep(0.2)
+                continue
             try:
                 if f["stage"] != "accepted":
                     o.send_frame(W.MT_CONNECT_V2, W.p_connect_v2(int(f["stage"] == "logger"), 0, 0, 30, 1, b""), src_mod=30)
